@@ -598,6 +598,39 @@ def cfdiv_q_2expV (V : Variant) (w u cnt : Nat) (dir : Int) (s : St) : R St := d
 def cdiv_q_2exp (w u cnt : Nat) := cfdiv_q_2expV .c w u cnt 1
 def fdiv_q_2exp (w u cnt : Nat) := cfdiv_q_2expV .c w u cnt (-1)
 
+/-! ## mpz_{t,f,c}div_q_ui: the quotient may be formed in place -/
+
+/-- mpn_divrem_1 (qp, 0, np, nn, d): mpn/generic/divrem_1.c ASSERTs `nn >= 0`, `d != 0`, `MPN_SAME_OR_SEPARATE_P (qp, np, nn)`:
+    `qp == np` is allowed.  Stores nn quotient limbs, returns the remainder. -/
+def mpn_divrem_1 (qp np nn d : Nat) (s : St) : R (Nat × St) := do
+  if ¬ (1 ≤ d ∧ d < B) then throw "ub:mpn_divrem_1 divisor"
+  let n ← s.load np nn
+  let s ← s.store qp (toLimbs nn (val n / d))
+  pure (val n % d, s)
+
+/-- mpz_tdiv_q_ui (`dir = 0`, tdiv_q_ui.c:34-77), mpz_fdiv_q_ui (`dir = -1`, fdiv_q_ui.c:34-92), mpz_cdiv_q_ui (`dir = 1`,
+    cdiv_q_ui.c); BITS_PER_UI == GMP_NUMB_BITS: the two-limb divisor code is compiled out.  Returns (return value, state). -/
+def div_q_ui (dir : Int) (quot dividend divisor : Nat) (s : St) : R (Nat × St) := do
+  if divisor = 0 then throw "div0"                            -- tdiv_q_ui.c:34-35
+  let ns := s.size dividend                                   -- :37
+  if ns = 0 then pure (0, s.setSize quot 0)                   -- :38-42
+  else
+    let nn := ns.natAbs                                       -- :44
+    let s := s.mpzRealloc quot nn                             -- :45
+    let qp := s.ptr quot                                      -- :46
+    let np := s.ptr dividend                                  -- :47
+    let r ← mpn_divrem_1 qp np nn divisor s                   -- :70
+    let adj : Bool := r.1 ≠ 0 ∧ ((dir = -1 ∧ ns < 0) ∨ (dir = 1 ∧ ns ≥ 0))   -- fdiv_q_ui.c:82 / cdiv_q_ui.c:83
+    let (rl, s) ← (if adj then do
+        let l ← r.2.load qp nn                                -- fdiv_q_ui.c:84 mpn_incr_u (qp, 1)
+        if val l + 1 ≥ B ^ nn then throw "ub:mpn_incr_u runs off the quotient"
+        let s ← r.2.store qp (toLimbs nn (val l + 1))
+        pure (divisor - r.1, s)                               -- :85
+      else pure (r.1, r.2))
+    let top ← limbAt s qp (nn - 1)                            -- tdiv_q_ui.c:71 qn = nn - (qp[nn - 1] == 0)
+    let qn := nn - (if top = 0 then 1 else 0)
+    pure (rl, s.setSize quot (if ns ≥ 0 then (qn : Int) else -(qn : Int)))    -- :74
+
 /-! ## mpz_and, mpz_ior, mpz_xor, mpz_com: pointers fetched early, re-read after the reallocation -/
 
 /-- what a sign case of and.c / ior.c / xor.c does before its limb loops: which operands were replaced by a TMP copy
